@@ -11,7 +11,8 @@ from harness.gallina import gbool, glist, gn, gopt, gstr, gz
 
 ID = "C15"
 COQ_TARGETS = ["Reach.vo", "ReachProofs.vo", "ReachSpec.vo", "RefutedC15.vo", "ReachList.vo", "ReachListProofs.vo",
-               "TS.vo", "TSProofs.vo", "Merge.vo", "MergeProofs.vo", "ReachTypes.vo", "CorrC15.vo", "Props/C15.vo"]
+               "TS.vo", "TSProofs.vo", "Merge.vo", "MergeProofs.vo", "ReachTypes.vo", "ReachPrefix.vo", "ReachPrefixProofs.vo",
+               "CorrC15.vo", "Props/C15.vo"]
 PROPS_FILE = "Props/C15.v"
 CORR_IMPORTS = "Base Heap Schema Reach CorrC15"
 ENTRY = "cassis.cas.Cas._find_all_fs (and to_xmi / to_json / load_cas_from_xmi / load_cas_from_json / typecheck / select / cas_to_comparable_text for the deadline)"
@@ -34,10 +35,19 @@ RULE = (
     "versions all at once or folded, XML round trip then merged again, load_cas_from_json with an embedded type system), observed "
     "after every stage on the same objects: types handed out by the walk over the subtypes of every type (oracle: none twice, never "
     "more than there are types) and select / select_covered under the CPU deadline (oracle only, no Gallina case). "
-    "Deadline obligation: 22 shapes (third wave: nested_arrays, nested_collections, merged_types = merged type tree of depth 10/20/40 "
-    "with the step count of the subtype walk) x sizes "
+    "Fourth wave: the same graph shapes over type systems whose types live in several packages (every ordered pair and triple of "
+    "packages ending in the same component / in a numbered one / in a prefix the XMI writer reserves, written in that order; all "
+    "eight names of the shared generator), with the prefixes of the XMI document compared in Coq with ReachPrefix.assign_all; arrays "
+    "nested 24 deep in the quick tier; cas_to_comparable_text on every graph with default and with optional arguments (exclude_types = "
+    "the collection types / everything else / one type at a time, mark_indexed, covered_text, explicit seeds) under the CPU deadline; "
+    "type trees whose versions contradict each other (a type above another in one version and below it in another, directly or "
+    "only through a third version; depth up to 30; independent random trees over one pool of names): whatever merge_typesystems / "
+    "load_cas_from_json hands out, every supertype chain ends within as many steps as there are types and subsumes / is_instance_of "
+    "between all pairs / typecheck / to_xmi / to_json / select come back (a refusal is C13's business). "
+    "Deadline obligation: 23 shapes (third wave: nested_arrays, nested_collections, merged_types = merged type tree of depth 10/20/40 "
+    "with the step count of the subtype walk; fourth wave: colliding_packages, and the operation cas_to_comparable_text with optional arguments) x sizes "
     "n,2n,4n (quick 250/500/1000, thorough 1000/2000/4000; diamond depth 50/100/200; type-reference ladder depth 15/30/60; "
-    "lists, also of primitive values, additionally 5000/8000) x 8 operations (to_json with type systems FULL and MINIMAL) in subprocesses, CPU cap and growth-ratio cap 12 per doubling. A case is non-trivial when its graph has a "
+    "lists, also of primitive values, additionally 5000/8000) x 9 operations (to_json with type systems FULL and MINIMAL) in subprocesses, CPU cap and growth-ratio cap 12 per doubling. A case is non-trivial when its graph has a "
     "cycle, a repeated/visited/null collection element, a shared collection, or explicit seeds."
 )
 TRUSTED = [
@@ -45,8 +55,11 @@ TRUSTED = [
     "hand-written model coq/Reach.v of Cas._find_all_fs (enqueue-once by identity, id assignment at pop, duplicate-id "
     "error, array/feature scanning, inline FSArray/FSList member scanning with a node set) and coq/ReachList.v of "
     "CasXmiSerializer._collect_list_elements (node set, ValueError on a repeated node) with the branches that call it",
-    "models coq/TS.v (Type.descendants over the _children tables, invariant WFh) and coq/Merge.v (merge_typesystems) of C10 / C13: "
-    "C15_subtype_walk_linear / C15_merged_subtype_walk_linear are corollaries of their theorems; their correspondence is checked by C10 / C13",
+    "models coq/TS.v (Type.descendants over the _children tables, Type.subsumes over the supertype attributes, invariant WFh) and "
+    "coq/Merge.v (merge_typesystems) of C10 / C13: C15_subtype_walk_linear / C15_merged_subtype_walk_linear / C15_supertype_walk_ends / "
+    "C15_merged_supertype_walk_ends are corollaries of their theorems; their correspondence is checked by C10 / C13",
+    "hand-written model coq/ReachPrefix.v of the free-prefix search in CasXmiSerializer._serialize_feature_structure (xmi.py 596-613); "
+    "str(int) is Coq's NilEmpty.string_of_uint o Nat.to_uint (injective, never empty: proved from the standard library)",
     "the schema (ancestors, effective features) is data here; that a TypeSystem answers like it is C10/C11",
     "harness/scen.py builders and harness/props/C15.py: build real objects, observe by identity, render cases",
     "wall-clock / CPU time is measured, not proved: the theorems bound loop iterations of the model (pops <= live objects, "
@@ -529,6 +542,70 @@ def random_graph(rng, n, nested=False):
     return sc
 
 
+# ------------------------------------------------------------------------------------------------ types in several packages
+# A reference graph is a graph of feature structures of SOME type system; the shapes above all live in the one package `g`.
+# The XMI writer keeps a table of namespace prefixes (one per package, named after the last component of the package) and
+# searches a free prefix in a `while` loop when two packages end in the same component or in a prefix it reserves itself
+# (cas, xmi): that loop has to end whatever the packages are called and in whatever order their structures are written.
+PKG_FAMILIES = [["p.v1.type", "p.v2.type", "p.type0", "p.type1", "p.v3.type"],       # equal last components and numbered ones
+                ["q.cas", "q.cas0", "q.xmi", "q.xmi0", "r.cas"]]                       # prefixes the writer reserves
+
+
+def pkg_tspec(pkgs):
+    """one type <package>.N per package (equal short names), every one with a reference, an inline array and a shared list"""
+    return [{"name": p + ".N", "super": TOP, "feats": [_f("next", TOP), _f("arr", FS_ARRAY), _f("lst", FS_LIST, None, True)]}
+            for p in pkgs]
+
+
+ALL_PKGS = PKG_FAMILIES[0] + PKG_FAMILIES[1]
+P_TSPEC = pkg_tspec(ALL_PKGS)          # one type system with all the packages; a case uses the types of some of them
+P_OBJ_TYPES = [p + ".N" for p in ALL_PKGS] + [FS_ARRAY, NE_LIST, E_LIST]
+
+
+def package_graph(pkgs, shape_no, explicit_ids):
+    """A small graph with one structure per package; with explicit ids the structures are written in the order of pkgs."""
+    b = B()
+    nodes = [b.new(p + ".N", (20 + i) if explicit_ids else None) for i, p in enumerate(pkgs)]
+    k = len(nodes)
+    if shape_no % 4 == 0:                                   # cycle of references
+        for i, x in enumerate(nodes):
+            b.set(x, next=nodes[(i + 1) % k])
+    elif shape_no % 4 == 1:                                 # chain, the last one holds all of them twice in an array
+        for i, x in enumerate(nodes[:-1]):
+            b.set(x, next=nodes[i + 1])
+        b.set(nodes[-1], arr=b.arr(nodes + [None] + nodes))
+    elif shape_no % 4 == 2:                                 # self references and a shared list of all
+        first, _ = b.lst(nodes + nodes[:1])
+        for x in nodes:
+            b.set(x, next=x, lst=first)
+    else:                                                   # diamond: the first refers to all others, all refer to the last
+        b.set(nodes[0], arr=b.arr(nodes[1:] + nodes[1:]))
+        for x in nodes[1:-1]:
+            b.set(x, next=nodes[-1])
+        b.set(nodes[-1], next=nodes[0])
+    for x in (nodes if shape_no % 3 else nodes[:1]):        # all indexed, or only the first (the others are reached)
+        b.add(x)
+    return b
+
+
+def package_scenarios(rng, tier):
+    from itertools import permutations
+    no = 0
+    for fam in PKG_FAMILIES:
+        for k in (2, 3):
+            perms = list(permutations(fam, k))
+            if tier == "quick" and k == 3:                  # quick: every ordered pair, and a third of the ordered triples
+                perms = [p for i, p in enumerate(perms) if i % 3 == rng.randrange(3)]
+            for pkgs in perms:
+                no += 1
+                b = package_graph(list(pkgs), no, explicit_ids=no % 5 != 0)
+                yield sc_of(b, "packages", inl=bool(no % 2), tspec=P_TSPEC)
+    for r in range({"quick": 20, "thorough": 200}[tier]):   # more packages at once, random order
+        pkgs = rng.sample(PKG_FAMILIES[0] + PKG_FAMILIES[1], rng.choice([4, 5, 7]))
+        no += 1
+        yield sc_of(package_graph(pkgs, no, explicit_ids=rng.random() < 0.8), "packages", inl=bool(no % 2), tspec=P_TSPEC)
+
+
 def generate(rng, tier):
     sizes = {"quick": [1, 2, 3, 6], "thorough": [1, 2, 3, 4, 6, 9, 14, 40], "search": [2, 5, 9]}[tier]
     if tier != "search":
@@ -566,6 +643,24 @@ def generate(rng, tier):
         yield random_graph(rng, rng.choice([1, 2, 3, 4, 6, 8, 12]), nested=True)
     # type trees built through every route (create_type, XML, merge of versions, JSON with an embedded type system)
     yield from tree_scenarios(rng, tier)
+    # fourth wave.  Generated last, so that every case above is what it was before.
+    if tier != "search":
+        # "dozens of levels deep" also in the quick tier: arrays nested 24 deep (a walk that enumerates paths instead of
+        # arrays takes 2^24 steps there and runs into the CPU deadline; thorough has depth 30 among the shapes above)
+        if tier == "quick":
+            for name, b, seeds in shapes_nested(24):
+                for inl in (False, True):
+                    yield json.loads(json.dumps(sc_of(b, name, inl, seeds)))
+        # the same reference graphs over type systems whose types live in several packages
+        yield from package_scenarios(rng, tier)
+    for r in range({"quick": 40, "thorough": 400, "search": 300}[tier]):
+        # every type of the shared generator's pool (C15 used to stop at six of its eight names)
+        tspec = scen.gen_tspec(rng, n_types=rng.choice([7, 8, 8]), max_feats=3, awkward=False)
+        cspec = scen.gen_cspec(rng, cassis, tspec, n_objs=(4, 12), all_ids=rng.random() < 0.5)
+        yield {"kind": "graph", "shape": "gen_cspec_all_packages", "tspec": tspec, "cspec": cspec, "inl": rng.random() < 0.5,
+               "seeds": None}
+    # type trees declared in contradictory directions by the versions that are merged
+    yield from contradictory_tree_scenarios(rng, tier)
 
 
 # ------------------------------------------------------------------------------------------------ type trees (small scope)
@@ -618,6 +713,40 @@ def tree_scenarios(rng, tier):
                                                                   ["merge_all", "json_embedded"], ["json_embedded"]]))
 
 
+def contradictory_tree_scenarios(rng, tier):
+    """Versions that are NOT coarser / finer views of one tree: a type lies above another type in one version and below it
+    in another, directly or only through the declarations of a third version.  Whether merge_typesystems refuses them is
+    C13's business; this property says that whatever it hands out is a tree again: every supertype chain ends after at
+    most as many steps as there are types, and the queries come back."""
+    def sc_of_versions(shape, versions, stages):
+        return {"kind": "tree", "shape": shape, "versions": versions, "stages": stages, "queries": True}
+    all_stages = (["merge_all"], ["merge_fold"], ["json_embedded"])
+    for d in {"quick": [1, 2, 3, 8, 30], "thorough": [1, 2, 3, 4, 5, 8, 12, 30, 60], "search": [2, 4]}[tier]:
+        chain = [["t.T0", TREE_ROOT]] + [["t.T%d" % (i + 1), "t.T%d" % i] for i in range(d)]
+        back = [["t.T%d" % d, TREE_ROOT], ["t.T0", "t.T%d" % d]]              # the root of the chain below its deepest type
+        rev = [["t.T%d" % d, TREE_ROOT]] + [["t.T%d" % i, "t.T%d" % (i + 1)] for i in range(d - 1, -1, -1)]
+        fine = [["t.T0", TREE_ROOT]]
+        for i in range(d):
+            fine += [["t.X%d" % i, "t.T%d" % i], ["t.T%d" % (i + 1), "t.X%d" % i]]
+        # one edge per version, closing a ring only when all versions are put together
+        ring = [[["t.T%d" % i, TREE_ROOT], ["t.T%d" % ((i + 1) % (d + 2)), "t.T%d" % i]] for i in range(d + 2)]
+        families = [("back", [chain, back]), ("back_first", [back, chain]), ("reversed", [chain, rev]),
+                    ("refined_back", [chain, fine, back]), ("ring", ring), ("ring_shuffled", rng.sample(ring, len(ring)))]
+        for name, versions in families:
+            if d >= 30 and name.startswith("ring"):
+                continue
+            for stages in all_stages if d <= 8 else all_stages[:1]:
+                yield sc_of_versions("contradictory_" + name, versions, stages)
+    for r in range({"quick": 60, "thorough": 500, "search": 300}[tier]):
+        # independent random trees over one pool of names
+        names = ["t.R%d" % i for i in range(rng.choice([2, 3, 4, 6, 9]))]
+        versions = []
+        for _v in range(rng.choice([2, 2, 3, 4])):
+            order = rng.sample(names, rng.randint(1, len(names)))
+            versions.append([[t, TREE_ROOT if i == 0 or rng.random() < 0.25 else order[rng.randrange(i)]] for i, t in enumerate(order)])
+        yield sc_of_versions("contradictory_random", versions, rng.choice(all_stages + (["merge_fold", "xml", "merge_all"],)))
+
+
 def _walk_counts(ts, names):
     """for every named type: [types handed out by the walk over its subtypes (cut), distinct ones among them]"""
     from itertools import islice
@@ -627,9 +756,51 @@ def _walk_counts(ts, names):
     for nm in names:
         if not ts.contains_type(nm):
             continue
-        walked = [t.name for t in islice(ts.get_type(nm).descendants, cut)]
+        try:
+            walked = [t.name for t in islice(ts.get_type(nm).descendants, cut)]
+        except RecursionError:                        # a walk that nests deeper than any tree of this size is deep
+            walked = [nm] * cut
         out[nm] = [len(walked), len(set(walked))]
     return n_types, out
+
+
+def _chain_steps(ts, names):
+    """for every named type: [steps of its supertype chain (cut one step after the number of types), did it end]"""
+    n_types = sum(1 for _ in ts.get_types(built_in=True))
+    out = {}
+    for nm in names:
+        if not ts.contains_type(nm):
+            continue
+        cur, steps = ts.get_type(nm), 0
+        while cur is not None and steps <= n_types:
+            cur, steps = cur.supertype, steps + 1
+        out[nm] = [steps, cur is None]
+    return n_types, out
+
+
+TREE_QUERIES = ["subsumes", "is_instance_of", "typecheck", "to_xmi", "to_json"]
+
+
+def _tree_queries(cassis, ts, cas, names):
+    """{query: kind} - the hierarchy queries between all pairs of named types (and against types outside the tree, where
+    the walk up has to run to the end of the chain) and the operations that use them, each under the CPU deadline"""
+    present = [n for n in names if ts.contains_type(n)]
+    outside = ["uima.cas.Sofa", "uima.cas.FSArray", TOP]
+
+    def subsumes():
+        return sum(ts.subsumes(a, b) for a in present + outside for b in present)
+
+    def is_instance_of():
+        return sum(ts.is_instance_of(b, a) for a in present + outside for b in present)
+    fns = {"subsumes": subsumes, "is_instance_of": is_instance_of, "typecheck": cas.typecheck, "to_xmi": cas.to_xmi,
+           "to_json": cas.to_json}
+    cap = OP_CPU_CAP_S if _STATE["op_deadlines"] < 3 else OP_CPU_CAP_AFTER_3_S
+    out = {}
+    for q in TREE_QUERIES:
+        out[q] = _bounded(cap, fns[q])[0]
+        if out[q] == "deadline":
+            _STATE["op_deadlines"] += 1
+    return out
 
 
 def _run_tree(cassis, sc):
@@ -660,25 +831,44 @@ def _run_tree(cassis, sc):
                     k += len(found) + sum(len(list(cas.select_covered(nm, a))) for a in found[:2])
             return k
         kind, _r = _bounded(OP_CPU_CAP_S, query)
-        obs["stages"].append({"stage": stage, "types": n_types, "walks": walks, "select": kind})
+        st = {"stage": stage, "types": n_types, "walks": walks, "select": kind}
+        if sc.get("queries"):
+            st["all_types"], st["chains"] = _chain_steps(ts, names)
+            st["queries"] = _tree_queries(cassis, ts, cas, names)
+        obs["stages"].append(st)
+
+    def do(stage):
+        nonlocal current, tss
+        if stage == "merge_all":
+            current = cassis.merge_typesystems(*tss)
+        elif stage == "merge_fold":
+            current = tss[0]
+            for t in tss[1:]:
+                current = cassis.merge_typesystems(current, t)
+        elif stage == "xml":                       # the merged tree written and read back, then merged with the versions again
+            current = cassis.load_typesystem((current or tss[0]).to_xml())
+            tss = [current] + tss
+        elif stage == "json_embedded":             # a document carrying the last version is loaded into a CAS typed by the first
+            doc = cassis.Cas(typesystem=tss[-1]).to_json()
+            current = cassis.load_cas_from_json(doc, typesystem=current or tss[0]).typesystem
 
     for stage in sc["stages"]:
-        try:
-            if stage == "merge_all":
-                current = cassis.merge_typesystems(*tss)
-            elif stage == "merge_fold":
-                current = tss[0]
-                for t in tss[1:]:
-                    current = cassis.merge_typesystems(current, t)
-            elif stage == "xml":                       # the merged tree written and read back, then merged with the versions again
-                current = cassis.load_typesystem((current or tss[0]).to_xml())
-                tss = [current] + tss
-            elif stage == "json_embedded":             # a document carrying the last version is loaded into a CAS typed by the first
-                doc = cassis.Cas(typesystem=tss[-1]).to_json()
-                current = cassis.load_cas_from_json(doc, typesystem=current or tss[0]).typesystem
-        except ValueError:                             # merge refused: which merges are legal is C13, not this property
-            obs["stages"].append({"stage": stage, "refused": True})
-            break
+        if sc.get("queries"):                          # the stage itself walks the hierarchy it is building: CPU deadline
+            cap = OP_CPU_CAP_S if _STATE["op_deadlines"] < 3 else OP_CPU_CAP_AFTER_3_S
+            kind, _r = _bounded(4 * cap, lambda: do(stage))
+            _STATE["op_deadlines"] += kind == "deadline"
+            if kind == "ValueError":
+                obs["stages"].append({"stage": stage, "refused": True})
+                break
+            if kind != "ok":
+                obs["stages"].append({"stage": stage, "stage_failed": kind})
+                break
+        else:
+            try:
+                do(stage)
+            except ValueError:                         # merge refused: which merges are legal is C13, not this property
+                obs["stages"].append({"stage": stage, "refused": True})
+                break
         look(stage, current)
     return obs
 
@@ -687,6 +877,19 @@ def tree_oracle(sc, obs):
     for st in obs["stages"]:
         if st.get("refused"):
             continue
+        if st.get("stage_failed") in NOT_BACK:
+            return (f"stage {st['stage']} (merging / loading {len(sc['versions'])} versions of a type tree) did not come back "
+                    f"({st['stage_failed']}; CPU cap {4 * OP_CPU_CAP_S} s)")
+        if "stage_failed" in st:                       # any other exception: not this property's business
+            continue
+        for nm, (steps, ended) in sorted((st.get("chains") or {}).items()):
+            if not ended or steps > st["all_types"]:
+                return (f"the supertype chain of {nm} after stage {st['stage']} does not end within {st['all_types']} steps (the "
+                        f"type system has {st['all_types']} types): every walk up the hierarchy loops")
+        for q in TREE_QUERIES:
+            if (st.get("queries") or {}).get(q) in NOT_BACK:
+                return (f"{q} did not come back ({st['queries'][q]}; CPU cap {OP_CPU_CAP_S} s) on a type system of {st['types']} "
+                        f"types after stage {st['stage']}")
         if st["select"] in NOT_BACK:
             return (f"select / select_covered did not come back ({st['select']}; CPU cap {OP_CPU_CAP_S} s) on a type system of "
                     f"{st['types']} types after stage {st['stage']}")
@@ -733,7 +936,8 @@ _STATE = {"running": False, "hung": 0, "shrinks": 0, "op_deadlines": 0}
 # structures and every operation takes milliseconds; a deadline hit is a loop that does not end.
 OP_CPU_CAP_S = 2.0
 OP_CPU_CAP_AFTER_3_S = 0.3           # the tree under test loops: do not spend 2 s on every further case
-SMALL_OPS = ["to_xmi", "to_json", "typecheck", "load_cas_from_xmi", "load_cas_from_json"]
+SMALL_OPS = ["to_xmi", "to_json", "typecheck", "load_cas_from_xmi", "load_cas_from_json",
+             "cas_to_comparable_text", "cas_to_comparable_text_args"]
 NOT_BACK = ("deadline", "MemoryError", "RecursionError")
 
 
@@ -764,6 +968,51 @@ def _bounded(seconds, fn):
         signal.signal(signal.SIGVTALRM, old)
 
 
+def _is_collection_type(name):
+    return name.startswith(T) and (name.endswith("Array") or name.endswith("List"))
+
+
+def comparable_text_arguments(sc, objs):
+    """The optional arguments cas_to_comparable_text is called with on every graph (the operation is `the listing of
+    this graph under these arguments`; a graph shape on which one of them loops is a shape on which the operation does
+    not terminate).  From the scenario: leaving out the collection types (all at once and one type at a time), leaving
+    out everything but the collections without index marks and covered text, explicit seeds."""
+    types = sorted({o["type"] for o in sc["cspec"]["objs"]})
+    colls = [t for t in types if _is_collection_type(t)]
+    labels = sc["seeds"] if sc["seeds"] is not None else [o["o"] for o in sc["cspec"]["objs"]][::2]
+    seeds = [objs[l] for l in labels]
+    out = [{"exclude_types": set(colls) | {FS_ARRAY}},
+           {"exclude_types": {t for t in types if t not in colls}, "mark_indexed": False, "covered_text": False},
+           {"seeds": seeds, "exclude_types": {FS_ARRAY, NE_LIST}},
+           {"seeds": seeds, "mark_indexed": False}]
+    out += [{"exclude_types": {t}} for t in types[:12]]
+    return out
+
+
+XMI_URL, CAS_URL = "http://www.omg.org/XMI", "http:///uima/cas.ecore"
+
+
+def observe_namespaces(doc):
+    """From the XMI document alone: the packages of the feature-structure elements in the order in which they are first
+    met ([raw prefix = last component of the package, namespace url]) and the prefix the document uses for every
+    namespace that is not one of the writer's own two ([prefix, url])."""
+    from lxml import etree
+    root = etree.fromstring(doc.encode("utf-8"))
+    seq, decl, seen = [], [], set()
+    for ch in root:
+        q = etree.QName(ch)
+        if q.namespace == CAS_URL and q.localname in ("NULL", "Sofa", "View"):
+            continue                                        # written with the reserved prefix, not through the table
+        url = q.namespace
+        if url in seen or not (url or "").startswith("http:///") or not url.endswith(".ecore"):
+            continue
+        seen.add(url)
+        seq.append([url[len("http:///"):-len(".ecore")].split("/")[-1], url])
+        if url not in (XMI_URL, CAS_URL):
+            decl.append([ch.prefix, url])
+    return {"seq": seq, "decl": decl}
+
+
 def _run_small_ops(cassis, sc, ts, members):
     """to_xmi / to_json / typecheck / load_* on a CAS built like the one that was traversed (the traversal observation
     must see the ids before any serialiser assigned some).  Returns ({op: kind}, same member order as the traversed CAS)."""
@@ -772,6 +1021,8 @@ def _run_small_ops(cassis, sc, ts, members):
     same = [[lab.get(id(x), -1) for x in v.select_all()] for v in views] == members
     cap = OP_CPU_CAP_S if _STATE["op_deadlines"] < 3 else OP_CPU_CAP_AFTER_3_S
     out, docs = {}, {}
+    import importlib
+    cct = importlib.import_module("cassis.util").cas_to_comparable_text       # of the tree under test (core.load_impl)
     for op in SMALL_OPS:
         if op == "to_xmi":
             fn = cas.to_xmi
@@ -783,10 +1034,15 @@ def _run_small_ops(cassis, sc, ts, members):
             if docs.get("to_xmi") is None:
                 continue
             fn = lambda: cassis.load_cas_from_xmi(docs["to_xmi"], typesystem=ts)  # noqa: E731
-        else:
+        elif op == "load_cas_from_json":
             if docs.get("to_json") is None:
                 continue
             fn = lambda: cassis.load_cas_from_json(docs["to_json"], typesystem=ts)  # noqa: E731
+        elif op == "cas_to_comparable_text":
+            fn = lambda: cct(cas)  # noqa: E731
+        else:
+            variants = comparable_text_arguments(sc, objs)
+            fn = lambda: [cct(cas, **kw) for kw in variants]  # noqa: E731
         kind, r = _bounded(cap, fn)
         out[op] = kind
         if kind == "ok" and op in ("to_xmi", "to_json"):
@@ -794,7 +1050,13 @@ def _run_small_ops(cassis, sc, ts, members):
         if kind == "deadline":
             _STATE["op_deadlines"] += 1
             break                                           # one loop that does not end is enough for this case
-    return out, same
+    ns = None
+    if docs.get("to_xmi") is not None and sc["tspec"] != G_TSPEC:
+        try:
+            ns = observe_namespaces(docs["to_xmi"])
+        except Exception:  # noqa: a document that cannot be read is the round-trip properties' business
+            ns = None
+    return out, same, ns
 
 
 def run_impl(cassis, sc):
@@ -835,10 +1097,11 @@ def _run_graph(cassis, sc):
         err = _errkind(e)
     ids_after = {str(l): o.xmiID for l, o in objs.items()}
     next_after = _probe_next(cas, ts, sc["tspec"])
-    ops, same = _run_small_ops(cassis, sc, ts, members)
+    ops, same, ns = _run_small_ops(cassis, sc, ts, members)
     _STATE["running"] = False
     return {"next_before": next_before, "ids_before": ids_before, "members": members, "sofas": sofas, "err": err,
-            "found": found, "ids_after": ids_after, "next_after": next_after, "ops": ops, "ops_same_members": same}
+            "found": found, "ids_after": ids_after, "next_after": next_after, "ops": ops, "ops_same_members": same,
+            "xmi_ns": ns}
 
 
 # ------------------------------------------------------------------------------------------------ oracle (from the scenario)
@@ -933,6 +1196,12 @@ def _duplicate_ids_possible(cassis, sc, obs, inl):
     return forced or may_collide
 
 
+def _duplicate_ids_possible_anywhere(sc, obs):
+    ids = [v for v in obs["ids_before"].values()]
+    explicit = [i for i in ids if i is not None]
+    return len(set(explicit)) < len(explicit) or (len(explicit) < len(ids) and any(i >= obs["next_before"] for i in explicit))
+
+
 def ops_oracle(cassis, sc, obs):
     """Every operation came back (CPU deadline), and the writers / typecheck refused only what they may refuse."""
     ops = obs.get("ops") or {}
@@ -940,14 +1209,16 @@ def ops_oracle(cassis, sc, obs):
     for op in SMALL_OPS:
         if ops.get(op) in NOT_BACK:
             return f"{op} did not come back ({ops[op]}; CPU cap {OP_CPU_CAP_S} s) on a graph of {size}"
-    for op in ("to_xmi", "to_json", "typecheck"):           # the three traverse the CAS: a duplicate id is a ValueError
-        k = ops.get(op)
+    for op in ("to_xmi", "to_json", "typecheck", "cas_to_comparable_text", "cas_to_comparable_text_args"):
+        k = ops.get(op)                                     # all of them traverse the CAS: a duplicate id is a ValueError
         if k in (None, "ok"):
             continue
         if k != "ValueError":
             return f"{op} raised {k} on a well-formed graph ({size})"
         if _duplicate_ids_possible(cassis, sc, obs, False) or _duplicate_ids_possible(cassis, sc, obs, True):
             continue
+        if op == "cas_to_comparable_text_args" and _duplicate_ids_possible_anywhere(sc, obs):
+            continue                                        # explicit seeds may reach what the indexed structures do not
         if op == "to_xmi" and cyclic_inline_lists(cassis, sc, obs):
             continue                                        # XMI has no inline form for a cyclic list: refusing is allowed
         return f"{op} raised ValueError although ids are distinct and no list written inline is cyclic ({size})"
@@ -1052,6 +1323,10 @@ def render(sc, obs):
         ok, names = schema_const_usable(cassis, G_TSPEC, G_OBJ_TYPES, "CorrC15.v", "schemaG")
         if ok and all(o["type"] in names for o in sc["cspec"]["objs"]):
             return _render_with("schemaG", sc, obs)
+    if sc["tspec"] == P_TSPEC:
+        ok, names = schema_const_usable(cassis, P_TSPEC, P_OBJ_TYPES, "CorrC15.v", "schemaP")
+        if ok and all(o["type"] in names for o in sc["cspec"]["objs"]):
+            return _render_with("schemaP", sc, obs)
     schema = scen.schema_of(cassis, sc["tspec"])
     names = scen.used_type_names(schema, sc["cspec"])
     return _render_with(scen.g_schema(schema, names), sc, obs)
@@ -1064,8 +1339,11 @@ def _render_with(schema_term, sc, obs):
     ids = glist([f"({gn(int(l))}, {gopt(i, gz)})" for l, i in obs["ids_after"].items()])
     x = (obs.get("ops") or {}).get("to_xmi")
     xmi = "None" if not obs.get("ops_same_members") or x not in ("ok", "ValueError") else f"(Some {gbool(x == 'ok')})"
+    ns = obs.get("xmi_ns")
+    pairs = lambda l: glist([f"({gstr(a)}, {gstr(b)})" for a, b in l])  # noqa: E731
+    gns = "None" if not ns or not all(isinstance(p, str) for p, _u in ns["decl"]) else f"(Some ({pairs(ns['seq'])}, {pairs(ns['decl'])}))"
     return (f"mkCase {schema_term}\n {_g_cas(sc, obs)}\n {gbool(sc['inl'])} {seeds} {err} {found}\n {ids} "
-            f"{gz(obs['next_after'] if obs['err'] is None else 0)} {xmi}")
+            f"{gz(obs['next_after'] if obs['err'] is None else 0)} {xmi} {gns}")
 
 
 def nontrivial(sc):
@@ -1164,17 +1442,23 @@ def distribution(scenarios, observations):
             "to_xmi_refused": sum(1 for o in observations if o and (o.get("ops") or {}).get("to_xmi") == "ValueError"),
             "to_xmi_compared_in_coq": sum(1 for o in observations if o and o.get("ops_same_members")
                                           and (o.get("ops") or {}).get("to_xmi") in ("ok", "ValueError")),
+            "namespaces_compared_in_coq": sum(1 for o in observations if o and o.get("xmi_ns")),
+            "namespace_prefixes_renamed": sum(1 for o in observations if o and o.get("xmi_ns")
+                                              and any(p != u[len("http:///"):-len(".ecore")].split("/")[-1] for p, u in o["xmi_ns"]["decl"])),
+            "comparable_text_calls": sum(1 for o in observations if o and (o.get("ops") or {}).get("cas_to_comparable_text_args")),
+            "contradictory_tree_cases": sum(1 for s in scenarios if s.get("kind") == "tree" and s.get("queries")),
             "ids_assigned_cases": sum(1 for o in observations if o and o.get("found") and o["next_after"] > o["next_before"])}
 
 
 # ------------------------------------------------------------------------------------------------ deadline oracle
 
 TIMING = os.path.join(os.path.dirname(os.path.abspath(__file__)), "c15_timing.py")
-OPS = ["typecheck", "to_xmi", "to_json", "to_json_minimal", "load_cas_from_xmi", "load_cas_from_json", "select", "cas_to_comparable_text"]
+OPS = ["typecheck", "to_xmi", "to_json", "to_json_minimal", "load_cas_from_xmi", "load_cas_from_json", "select", "cas_to_comparable_text",
+       "cas_to_comparable_text_args"]
 SHAPES = ["chain", "cycle", "selfref", "diamond", "inline_array", "shared_array", "inline_list", "shared_list",
           "cyclic_inline_list", "cyclic_shared_list", "many_small_collections", "top_fan", "deep_types", "type_ref_ladder",
           "prim_lists", "cyclic_inline_int_list", "cyclic_inline_float_list", "cyclic_inline_string_list",
-          "cyclic_shared_prim_list", "nested_arrays", "nested_collections", "merged_types"]
+          "cyclic_shared_prim_list", "nested_arrays", "nested_collections", "merged_types", "colliding_packages"]
 LIST_SHAPES = ("inline_list", "shared_list", "cyclic_inline_list", "cyclic_shared_list", "prim_lists",
                "cyclic_inline_int_list", "cyclic_inline_float_list", "cyclic_inline_string_list", "cyclic_shared_prim_list")
 # the only operation that may end with an exception: XMI refuses to write a cyclic list inline (ValueError)
@@ -1307,11 +1591,15 @@ MANIFEST = {
                   "are refuted (2^(n+1)-1 pops on diamond chains, divergent list walks). The models are tied to /repo on every "
                   "run by evaluating them inside Coq on the graphs the implementation traversed and wrote, every operation is run "
                   "under a CPU deadline on each of these graphs, and a deadline oracle measures "
-                  "to_xmi/to_json/load_*/typecheck/select/cas_to_comparable_text on 22 shapes at sizes n,2n,4n. The walk over "
+                  "to_xmi/to_json/load_*/typecheck/select/cas_to_comparable_text (default and with optional arguments) on 23 shapes at sizes n,2n,4n. The walk over "
                   "the subtypes of a type (Type.descendants, what select iterates over) is proved to hand out every type at most "
                   "once on every type system satisfying the hierarchy invariant, in particular on every result of the modelled "
                   "merge_typesystems (a stale _children entry per level makes it 3*2^k-2: refuted); on type trees built through "
-                  "every public route the implementation's walk is counted in steps on every run.",
+                  "every public route the implementation's walk is counted in steps on every run. Fourth wave: the walk up the supertype "
+                  "attributes returns on every such type system (a ring of supertypes: refuted), checked in steps on merges of versions that "
+                  "contradict each other; the XMI writer's search for a free namespace prefix is proved to return within |table|+2 rounds for "
+                  "every table, counter state and package name (suffix read from the wrong counter: refuted) and is compared in Coq with the "
+                  "prefixes of the documents written for graphs over colliding packages.",
     "level_note": "PARTIAL: the theorems bound loop iterations of the model (worklist pops, list-walk steps); hierarchy queries are "
                   "data lookups in Schema (ancestor lists), readers/writers are structural folds over the document / the id-sorted "
                   "list (total by Coq's guard condition). Wall-clock / CPU time of the implementation is measured (absolute cap and "
